@@ -37,7 +37,7 @@ MIN_CASES = {"quick": 2000, "thorough": 30000}
 REQUIRED_COUNTERS = ["attempts_logged", "backoff_gaps_checked", "immediate_wrong_id_moves", "auth_failures_ended_retries", "waiters_checked", "no_attempt_after_close_checks", "cap_60s_reached", "host_change_checks"]
 
 EPS = 0.011
-OUTCOMES = ["refuse", "blackhole", "close_m2", "http_470", "wrong_id", "bad_sig", "m4_err:2", "garbage", "bad_key_len", "ok_drop:0.5", "ok_drop:7"]
+OUTCOMES = ["refuse", "blackhole", "close_m2", "reset_m1", "http_470", "wrong_id", "bad_sig", "m4_err:2", "garbage", "bad_key_len", "ok_drop:0.5", "ok_drop:7"]
 
 
 class Scenario:
@@ -339,6 +339,18 @@ class Scenario:
                     if rec is not None and rec["ok"]:
                         self.violation("S1-no-reconnect-after-loss", f"established connection {c.index} was lost at t={c.closed_at - self.t0:.2f}; no attempt in the following {self.t_end - c.closed_at:.0f} s")
                         return
+
+        # S9 a connection the connector established is not torn down by the controller itself (ground truth: the accessory
+        # side knows whether IT closed the connection): otherwise every "successful" attempt is followed by another one
+        for c in self.w.accessory.conns:
+            rec = self.log.activation_of_conn(c.index)
+            if c.secure and rec is not None and rec["ok"] and c.closed_at is not None and not c.closed_by_accessory:
+                if closed is None or c.closed_at < closed - EPS:
+                    self.violation("S9-established-connection-dropped-by-controller", f"connection {c.index} (attempt {rec['i']}, established at t={c.opened_at - self.t0:.2f}) was closed by the controller at t={c.closed_at - self.t0:.2f} although nothing asked for it")
+                    return
+                continue
+            if c.secure and rec is not None and rec["ok"]:
+                ctx.count("established_connections_left_alone")
 
         # S7 host coverage in all-wrong-id scenarios / after host change
         if self.per_host is not None and all(v == "wrong_id" for v in self.per_host.values()) and not self.triggers and len(acts) > 6:
